@@ -66,7 +66,7 @@ func MatchScenario(t *rapid.T) sim.CScenario {
 	perm := rapid.Permutation(want).Draw(t, "perm")
 	var items []sim.ReplyItem
 	for _, e := range perm {
-		items = append(items, sim.ReplyItem{Kind: pick(t, "rk", []string{"result", "result", "result", "error"}), Op: e.op, I: e.i, N: 1})
+		items = append(items, sim.ReplyItem{Kind: pick(t, "rk", []string{"result", "result", "result", "error", "resultnullerr"}), Op: e.op, I: e.i, N: 1})
 		if rapid.IntRange(0, 5).Draw(t, "dup") == 0 {
 			items = append(items, sim.ReplyItem{Kind: pick(t, "dk", []string{"result", "error"}), Op: e.op, I: e.i, N: 2})
 		}
@@ -158,7 +158,7 @@ func LifecycleScenario(t *rapid.T) sim.CScenario {
 			if rapid.IntRange(0, 4).Draw(t, "keepopen") != 0 {
 				open = append(open[:j:j], open[j+1:]...)
 			}
-			st = sim.CStep{Op: "reply", Items: []sim.ReplyItem{{Kind: pick(t, "rk", []string{"result", "result", "error"}), Op: e.op, I: e.i, N: rapid.IntRange(1, 3).Draw(t, "n")}}}
+			st = sim.CStep{Op: "reply", Items: []sim.ReplyItem{{Kind: pick(t, "rk", []string{"result", "result", "error", "resultnullerr"}), Op: e.op, I: e.i, N: rapid.IntRange(1, 3).Draw(t, "n")}}}
 		case roll < 64 && len(cancellable) > 0:
 			st = sim.CStep{Op: "ctxcancel", K: pick(t, "ck", cancellable)}
 		case roll < 70:
